@@ -702,15 +702,16 @@ func GetFingerprint(q string) string {
 	return string(f[0:fi])
 }
 
-// blankComments returns q with every /* comment */ overwritten by blanks. The
-// text keeps its length, so offsets into it are offsets into q. Nothing inside
-// a 'quoted' or "quoted" value is a comment, and /*! ... */ is MySQL-specific
-// code, not a comment. An unterminated comment extends to the end of q.
+// blankComments returns q with every /* comment */ and every # comment (up to
+// the end of its line) overwritten by blanks. The text keeps its length, so
+// offsets into it are offsets into q. Nothing inside a 'quoted' or "quoted"
+// value is a comment, and /*! ... */ is MySQL-specific code, not a comment. An
+// unterminated comment extends to the end of q.
 func blankComments(q string) string {
 	b := []byte(q)
 	quote := byte(0)   // in a quoted value: its quote character
 	escape := false    // in a quoted value: the previous byte is an unescaped backslash
-	comment := unknown // in a comment: inMLC
+	comment := unknown // in a comment: inMLC or inOLC
 	body := 0          // in a comment: offset of the first byte after the opening /*
 	for i := 0; i < len(q); i++ {
 		c := q[i]
@@ -719,6 +720,12 @@ func blankComments(q string) string {
 			b[i] = ' '
 			if c == '/' && i > body && q[i-1] == '*' {
 				comment = unknown
+			}
+		case comment == inOLC:
+			if c == '\n' {
+				comment = unknown
+			} else {
+				b[i] = ' '
 			}
 		case quote != 0:
 			if escape {
@@ -734,6 +741,9 @@ func blankComments(q string) string {
 			b[i] = ' '
 			comment = inMLC
 			body = i + 2
+		case c == '#':
+			b[i] = ' '
+			comment = inOLC
 		}
 	}
 	return string(b)
